@@ -13,6 +13,7 @@ second answer must equal its first.  Native differential runs, not solver-decide
 from __future__ import annotations
 
 import gc
+import itertools as itt
 
 from .common import Violation, short
 from .graphs import GSpec, family
@@ -30,8 +31,12 @@ def apply(graph, ops):
             graph.add_node(V(op[1]))
         elif op[0] == "d":
             graph.add_directed_edge(V(op[1]), V(op[2]))
-        else:
+        elif op[0] == "b":
             graph.add_undirected_edge(V(op[1]), V(op[2]))
+        elif op[0] == "rb":  # re-wiring: networkx is the only way to drop an edge of an NxMixedGraph
+            graph.undirected.remove_edge(V(op[1]), V(op[2]))
+        elif op[0] == "rd":
+            graph.directed.remove_edge(V(op[1]), V(op[2]))
     return graph
 
 
@@ -80,6 +85,15 @@ def edge_cases(graphs, max_extra=1):
             yield g, [op for op in ops if op != e], [e]
         if len(edges) >= 2:
             yield g, [op for op in ops if op not in edges[-2:]], edges[-2:]
+        # re-wiring that keeps the numbers of nodes and edges: an edge of g is dropped and another one added
+        present = {(op[0], frozenset(op[1:])) for op in edges}
+        for e in edges:
+            for u, v in itt.combinations(g.nodes, 2):
+                kind = e[0]
+                if (kind, frozenset((u, v))) in present or (kind == "d" and ("d", frozenset((u, v))) in present):
+                    continue
+                yield g, ops, [("r" + kind, e[1], e[2]), (kind, u, v)]
+                break
 
 
 def alternate(run, g1: GSpec, g2: GSpec, query, rounds=40):
